@@ -1143,6 +1143,26 @@ def stream_physical(ctx, pc):
         data = portion * topo_cell(dist, p_err) * storage * rounds
         return min(1.0, data + factory_failure(spec, p_err) * nt)
 
+    _facs = []
+
+    def overflow_expected(nq, nt, p_err, portion):
+        """some admissible candidate has physical_qubit_count * duration beyond datetime.timedelta.max (independent
+        integer / float computation, as in the joint grid below): the OverflowError of known finding F19"""
+        if not _facs:
+            _facs.append(ctx.driver.run([{'op': 'c19.phys.factories'}])[0])
+        specs = factory_specs(p_err)
+        table = _facs[0] if p_err == 0.001 else _facs[0][1:]
+        storage = -((-3 * nq) // 2)
+        for spec, (footprint, rnd) in zip(specs, table):
+            rounds = int(Fraction(nt, 4) * Fraction(rnd[0], rnd[1]))
+            ffail = factory_failure(spec, p_err)
+            for dist in dists:
+                qubits = storage * 2 * (dist + 1) ** 2 + 4 * footprint
+                fail = min(1.0, portion * topo_cell(dist, p_err) * storage * rounds + ffail * nt)
+                if fail <= 0.1 + 1e-9 and qubits * rounds > TIMEDELTA_MAX_US:
+                    return True
+        return False
+
     def one_estimator(nq, nt, p_err, portion, kind):
         """cost_estimator(nq, nt, p_err, portion): every candidate against the Model (integers) and the independent
         failure model (floats), selection through the Model fed with the independently computed feasibility flags"""
@@ -1160,6 +1180,11 @@ def stream_physical(ctx, pc):
         s.count('argument_types=' + kind)
         s.count('physical_error_rate=%g' % p_err)
         s.count('portion_of_bounding_box=%g' % portion)
+        if exc == 'OverflowError' and overflow_expected(nq, nt, p_err, portion):
+            s.count('timedelta-overflow')
+            s.violate('cost_estimator raises OverflowError: physical_qubit_count * duration of an admissible candidate '
+                      'exceeds the range of datetime.timedelta', dict(case, timedelta_overflow_expected=True), {})
+            return
         if exc:
             s.violate('unexpected exception ' + exc, case, {})
             return
@@ -1230,6 +1255,9 @@ def stream_physical(ctx, pc):
                 {'op': 'c19.spec.select', 'cands': cands, 'feasible': feas, 'res': impl_best}, is_true)])
     # num_toffoli = 0: every candidate costs 0 rounds, so the tie rule of the loop (first minimum) decides
     cases = [(2142, 5250145120), (2196, 31938980976), (2190, 88371052334), (1, 1), (3, 7), (5, 0), (100, 0)]
+    # corpus of past failures (runs in every tier): qubits x duration beyond datetime.timedelta.max (repaired in
+    # 74ee02b0; an int * timedelta comparison raised OverflowError)
+    cases += [(4860, 264227406989), (10000, 10 ** 12), (9000, 7 * 10 ** 11)]
     for _ in range(budget(t, 3, 30)):
         cases.append((rng.randint(100, 5000), rng.randint(10 ** 6, 10 ** 11)))
     for nq, nt in cases:
